@@ -67,17 +67,14 @@ theorem claim_refines (s : St) (f : Fifo) (h : Rel s f) :
     (step s .claim).2 = (Librfn.Spec.MessageqFifo.step f .claim).2 ∧
     Rel (step s .claim).1 (Librfn.Spec.MessageqFifo.step f .claim).1 := by
   have hfree := h.free; have hb := h.bound; have ho1 := h.order1; have ho2 := h.order2; have hq32 := h.q32
-  have hsmall : s.numFree.toNat < 128 := by omega
-  simp only [step, claim, claimWith, Librfn.Spec.MessageqFifo.step, granted_signed, toInt_of_small _ hsmall]
+  simp only [step, claim, Librfn.Spec.MessageqFifo.step]
   by_cases hfull : f.claimed - f.released = f.qlen
-  · have h0 : s.numFree.toNat = 0 := by omega
-    have hg : ¬ ((0 : Int) < (s.numFree.toNat : Int)) := by omega
-    simp only [hfull, if_true, hg, decide_false, Bool.false_eq_true, if_false]
-    refine ⟨by first | rfl | trivial, ?_⟩
-    exact { h with free := by show (s.numFree - 1 + 1).toNat + _ = _; rw [sub_one_add_one]; exact hfree }
+  · have h0 : s.numFree = 0 := BitVec.eq_of_toNat_eq (by show s.numFree.toNat = 0; omega)
+    simp only [hfull, if_true, h0]
+    exact ⟨by first | rfl | trivial, h⟩
   · have h0 : 1 ≤ s.numFree.toNat := by omega
-    have hg : (0 : Int) < (s.numFree.toNat : Int) := by omega
-    simp only [hfull, if_false, hg, decide_true, if_true]
+    have hne : s.numFree ≠ 0 := by intro e; rw [e] at h0; exact absurd h0 (by decide)
+    simp only [hfull, if_false, hne]
     refine ⟨?_, ?_⟩
     · simp only [offsetOfSlot, offsetOf, h.sendp, h.msgLen]
     · refine { h with order2 := ?_, bound := ?_, free := ?_, sendp := ?_, flags := ?_, sentlt := ?_ }
